@@ -36,7 +36,8 @@ func DeUMoney(uid ptttype.UID, money int32) (int32, error) {
 	}
 
 	currentMoney := MoneyOf(uid)
-	if money < 0 && currentMoney < -money {
+	// compare in int64: -money overflows int32 for money == math.MinInt32
+	if money < 0 && int64(currentMoney) < -int64(money) {
 		return SetUMoney(uid, 0)
 	}
 
